@@ -1,6 +1,7 @@
 import FV.Props.C03
 import FV.Props.C17Ser
 import FV.EmplaceImage
+import FV.SizeView
 /-! # C03, clause 3 — byte-exact image of portable values (see `C03_statement` in `Props/C03.lean`) -/
 namespace FV.Props
 open FV
@@ -74,6 +75,43 @@ theorem C03_enum_tag_and_fields_at_c_offsets (tag : LenTy) (vs : List (List Ty))
   simp only [Ty.WF] at h
   simp only [InitWT] at hw
   exact uenum_none_image tag h.1 vs (lawLL vs h.2.1) idx hw.1 vals (sizedL_allSized _ hw.2.2.1) hw.2.2.2 s hal hlen o ho hres
+
+/-- **C03 for `assign_in_place`.** Assigning to a valid value runs the emplacer on the value's own bytes (`as_mut_bytes()`,
+`v` of them): it never faults, keeps the length, succeeds **iff** the new content is representable and its specified size is at
+most `v`, and on success the whole slice validates, reads back as exactly the specified content and has `size()` = `sizeSpec`. -/
+theorem C03_assign_reads_back (t : Ty) (h : t.WF) (i : Init) (hw : InitWT t i) (s : Slice) (hv : t.dict.validate s = .ok ()) :
+    ∃ o v, assign t i s = .ok o ∧ t.dict.viewLen s.len = .ok v ∧ o.bytes.length = s.len ∧
+      (o.res = .ok () ↔ Rep t i ∧ sizeSpec t i ≤ v) ∧
+      (o.res = .ok () → t.dict.validate ⟨s.addr, o.bytes⟩ = .ok () ∧
+        (t.dict.walk ⟨s.addr, o.bytes⟩).map Val.strip = specV t i ∧ t.dict.size ⟨s.addr, o.bytes⟩ = .ok (sizeSpec t i)) := by
+  obtain ⟨ha, hl, _⟩ := validate_ok_iff.1 hv
+  obtain ⟨_, v, _, hvw, _, hvle, hown⟩ := own_bytes_validate t h s hv
+  obtain ⟨ha', hl', _⟩ := validate_ok_iff.1 hown
+  have hvl : (s.take v).len = v := by simp only [Slice.len_take]; omega
+  obtain ⟨o1, ho1, hok, hc⟩ := emplaceU_content i t h hw (s.take v) ha' hl'
+  obtain ⟨hiff, hsize⟩ := (emplaceU_acc i t h hw).1 (s.take v) ha' hl' o1 ho1
+  have hol : o1.bytes.length = v := by have := hok.len; omega
+  have hsl : s.len = s.bytes.length := rfl
+  have F := Ty.frameLaw t h
+  refine ⟨⟨o1.bytes ++ s.bytes.drop v, o1.res⟩, v, by simp only [assign, hvw, Res.bind_ok, ho1], hvw, ?_, by rw [hvl] at hiff; exact hiff, ?_⟩
+  · simp only [List.length_append, List.length_drop, hol]; omega
+  · intro hres
+    have hvu := hok.valid hres
+    have hz := hsize hres
+    simp only [Slice.addr_take] at hvu hz ha'
+    have hmin : t.dict.minSize ≤ (⟨s.addr, o1.bytes⟩ : Slice).len := by simp only [Slice.len, hol]; omega
+    obtain ⟨z, hz', hzle, _, _⟩ := F.size_ok ⟨s.addr, o1.bytes⟩ ha' hmin hvu
+    have hzz : z = sizeSpec t i := by simp only [Dict.sizeV] at hz'; rw [hz] at hz'; cases hz'; rfl
+    subst hzz
+    simp only [Slice.len] at hzle
+    have hb : (o1.bytes ++ s.bytes.drop v).take (sizeSpec t i) = o1.bytes.take (sizeSpec t i) :=
+      List.take_append_of_le_length hzle
+    have hlen' : sizeSpec t i ≤ (⟨s.addr, o1.bytes ++ s.bytes.drop v⟩ : Slice).len := by
+      simp only [Slice.len, List.length_append]; omega
+    obtain ⟨h1, h2⟩ := F.loc ⟨s.addr, o1.bytes⟩ (sizeSpec t i) ha' hmin hvu hz' ⟨s.addr, o1.bytes ++ s.bytes.drop v⟩ rfl hlen' hb
+    refine ⟨validate_ok_iff.2 ⟨ha, by simp only [Slice.len, List.length_append, List.length_drop, hol]; omega, h1⟩, ?_, h2⟩
+    rw [walk_loc t.dict F (Ty.walkLaw t h) ⟨s.addr, o1.bytes⟩ (sizeSpec t i) ha' hmin hvu hz' ⟨s.addr, o1.bytes ++ s.bytes.drop v⟩ rfl hlen' hb]
+    exact hc hres
 
 /-- non-vacuity: `S1 { a: u32, b: FlatVec<u8,u16> }` with three bytes in `b` occupies 12 bytes (4 + 2 + 3, padded to 4) -/
 example : sizeSpec S1 (.ustruct [[1,0,0,0]] (.vecArr [[7],[8],[9]])) = 12 := by decide
